@@ -35,8 +35,8 @@ def plan(tier, seed):
     quick = tier == "quick"
     return {
         "nshards": 16,
-        "params": {"soft_s": 600 if quick else 1800, "nprograms": 12 if quick else 140, "script_len": 10 if quick else 20},
-        "hard_timeout_s": 1200 if quick else 4000,
+        "params": {"soft_s": 1500 if quick else 5400, "nprograms": 12 if quick else 140, "script_len": 10 if quick else 20},
+        "hard_timeout_s": 2700 if quick else 9000,
     }
 
 
